@@ -274,7 +274,11 @@ def r4_activation(ctx):
     b = ctx.body("melstf::state::SealedState::next_unsealed", r)
     act = q.call_exprs(b, "apply_tip_906_for_next_state")
     r.check(len(act) == 1, "call", "the initialisation is called from next_unsealed", "%d calls" % len(act))
-    tn = [e for bi, e in q.call_exprs(b, "UnsealedState::tip_906") if sig(q.novers(e[2][0])) == "new"]
+    # the state being built is the variable next_unsealed returns (its name is a spelling)
+    rets_ = q.ret_assignments(b)
+    rv_ = mir.strip(rets_[0][2]) if rets_ else None
+    NEW = rv_[1] if rv_ is not None and rv_[0] == "var" else "new"
+    tn = [e for bi, e in q.call_exprs(b, "UnsealedState::tip_906") if sig(q.novers(e[2][0])) == NEW]
     to = [e for bi, e in q.call_exprs(b, "UnsealedState::tip_906") if sig(e[2][0]) == "$1.0"]
     r.check(bool(tn) and bool(to), "atoms", "both tip_906 flags are evaluated", "flags evaluated: new=%d old=%d" % (len(tn), len(to)))
     if act and tn and to:
@@ -289,7 +293,7 @@ def r4_activation(ctx):
                     r.check(not any(x in wo for x in b.return_blocks()), "activate/new=1,old=0", "runs on every path at the activation height", "a path skips the initialisation at the activation height", b.where(ab))
                 else:
                     r.check(ab not in f.reach, "activate/new=%d,old=%d" % (vn, vo), "does not run", "the initialisation runs with new=%d old=%d" % (vn, vo), b.where(ab))
-        r.check(sig(q.novers(act[0][1][2][0])) == "new", "arg", "on the new state", "on %s" % sig(act[0][1][2][0]))
+        r.check(sig(q.novers(act[0][1][2][0])) == NEW, "arg", "on the new state", "on %s" % sig(act[0][1][2][0]))
     a = ctx.body("melstf::state::SealedState::apply_tip_906_for_next_state", r)
     loops = q.loop_with_source(a, lambda s: True)
     SRC = "Tree::iter(CoinMapping::inner($1.coins))"
